@@ -150,6 +150,18 @@ CHECKS = {
              "text (own gitignore matcher, validated against git): absolute, sorted, unique, independent of argument and listing order.",
         note="Trusted: the reference walk and vf/ignore_ref.py (agrees with git on all 600 one- and two-line pattern sets of the C18 alphabet).",
         ref="DESIGN.md §2 C17"),
+    "C14": dict(
+        level="fault_enumeration",
+        technique="exhaustive crash-point, torn-write and fault enumeration on the real write path under an audit-hook fault injector",
+        text="flowmark.cli.main runs in a forked child on a private tmpfs tree with every file-system operation numbered by an audit hook and "
+             "write/close wrappers. For 14 scenarios (in place with/without backup, --auto, 3 files, an undecodable file in the middle, -o into new "
+             "directories, -o onto an existing file, stdin to -o, stdout only, a stale .orig, a .orig symlink, the formatter raising, a directory) "
+             "the run is repeated with a crash before every operation and after every byte prefix of every write, with each of 4 errno values "
+             "injected at every operation (writes also after a short prefix), and in the thorough tier with every pair of faults. After each "
+             "execution every target holds the complete old or new content (or is absent with .orig == old when backups are on), no other file "
+             "changed, and exit 0 implies everything was formatted.",
+        note="Process-death model with a coherent page cache (no power-loss reordering; flowmark does not fsync). Operations are observed at the Python audit-event / file-object level.",
+        ref="DESIGN.md §2 C14"),
     "C05": dict(
         level="model_checking",
         technique="explicit-state model of the greedy filler, exhaustive trace enumeration + replay of every trace against the implementation",
